@@ -70,6 +70,11 @@ inductive WSel | w (k : Nat) | sw (i : Nat) | wc
 inductive Slot | f (i : Nat) | u (i : Nat)
   deriving Repr, Inhabited
 
+/-- The node is designated through table entry `k` itself. -/
+def NRef.viaTable : NRef → Nat → Bool
+  | .of (.h k'), k => k' == k
+  | _, _ => false
+
 structure NewSpec where
   ns : Nat
   nu : Nat
@@ -495,10 +500,7 @@ def execOp (c : Cfg) (w : World) (self wc : Option Id) (op : Op) : World :=
     | _, _ => skip
   | .movef n s k =>
     -- safe Rust cannot move a pointer while the target is borrowed through that very pointer
-    let aliased := match n with
-      | .of (.h k') => k' == k
-      | _ => false
-    if aliased then skip else
+    if n.viaTable k then skip else
     match w.resolveN self n, w.getH k with
     | some t, some x =>
       match getSlot (w.heap t) s with
